@@ -5,7 +5,7 @@
 //   * the allocating form (twice: an ordinary ST::string and one whose storage ends at a
 //     PROT_NONE page, so an over-read past the terminator faults),
 //   * the caller-buffer form with null output (size query),
-//   * the caller-buffer form with output_size in {0, d-1, d, d+1, d+64}, each twice:
+//   * the caller-buffer form with output_size in {0, d-1, d, d+1, d+64} (+ 2^31-1 .. SIZE_MAX over a d+64 block), each twice:
 //       layout A: [output_size bytes][64 canary bytes]|guard page   fill 0xEE
 //       layout B: [output_size bytes]|guard page                    fill 0x11
 //     (a write past output_size damages the canary in A and faults in B; two different
@@ -214,6 +214,32 @@ static void check_input(Ctx &c, const Codec &cd, const std::string &in)
             if (layout == 0)
                 vf::count_dyn(std::string("out:") + nm + ":buffer:" + (r < 0 ? (valid ? "too-small" : "rejected") : "decoded"));
         }
+    }
+    // ---- capacities up to the integer limits: "would not fit" can never be the answer, and still nothing beyond the
+    // decoded length is written (the block really holds d bytes + a 64-byte canary)
+    static const size_t HUGE[] = {(size_t(1) << 31) - 1, size_t(1) << 31, size_t(1) << 32, (size_t(1) << 63) - 1, size_t(1) << 63, ~size_t(0)};
+    for (size_t os : HUGE) {
+        const char *oscls = os <= (size_t(1) << 32) ? "size=2^31..2^32" : "size=2^63..SIZE_MAX";
+        const long expect = valid ? (long)want.size() : -1;
+        std::string init((size_t)d + 64, (char)0xEE);
+        unsigned char *blk = (unsigned char *)g_outA.place(init.data(), init.size());
+        ST_ssize_t r = cd.buf(gs.s, blk, os);
+        VF_COUNT("ops");
+        VF_COUNT("validated");
+        size_t lim = valid ? want.size() : 0;
+        for (size_t i = lim; i < init.size(); ++i)
+            if (blk[i] != 0xEE && (valid || i >= (size_t)d)) {
+                c.fail(strf("%s_decode(buffer):overrun:%s:%s", nm, oscls, cls.c_str()),
+                       strf("byte at output+%zu (output_size=%zu, decoded length %ld) was overwritten; returned %zd", i, os, d, (ssize_t)r));
+                break;
+            }
+        if (r != expect) {
+            c.fail(strf("%s_decode(buffer):%s:%s:%s", nm, expect < 0 ? "accepted-invalid" : (r < 0 ? "rejected-valid" : "wrong-return"), oscls, cls.c_str()),
+                   strf("returned %zd, expected %ld (output_size=%zu, decoded length %ld)", (ssize_t)r, expect, os, d));
+            continue;
+        }
+        if (expect >= 0 && memcmp(blk, want.data(), want.size()) != 0)
+            c.fail(strf("%s_decode(buffer):wrong-bytes:%s:%s", nm, oscls, cls.c_str()), "wrong bytes");
     }
 }
 
